@@ -154,9 +154,23 @@ def canon_key(case_or_cells, cid, toks):
     built from the program description (independent of modelx); None when the spelling does not bind"""
     from .expr import py_bind
     cells = case_or_cells["cells"] if isinstance(case_or_cells, dict) else case_or_cells
-    c = next(x for x in cells if x["id"] == int(cid))
+    ops = case_or_cells.get("ops", []) if isinstance(case_or_cells, dict) else []
+    c = next(x for x in cells if x["id"] == origin_of(ops, int(cid)))
     pos, kw = execworld.split_args(toks)
     return py_bind(c["nparams"], c.get("defaults") or [], pos, kw)
+
+
+def origin_of(ops, cid):
+    """the cells of the program a copy (of a copy ...) was made from: it has the same signature"""
+    for _ in range(20):
+        if cid >= execworld.COPY_BASE:
+            cid -= execworld.COPY_BASE
+            continue
+        src = next((int(o[1]) for o in ops if o[0] == "copycell" and int(o[3]) == cid), None)
+        if src is None:
+            return cid
+        cid = src
+    return cid
 
 
 def canon_node(case_or_cells, cid, toks):
